@@ -806,30 +806,30 @@ func writeEvidence(prop, tier, level string, seed int64, a *aggT, wall, buildS f
 	}
 	distinct := len(a.ints)
 	cov := map[string]any{
-		"evaluations":                   a.Runs,
-		"distinct_nontrivial":           distinct,
-		"rule":                          ruleText[prop],
-		"samples":                       samples,
-		"enumerated_runs":               a.Enumerated,
-		"scheduler_steps":               a.Steps,
-		"simulated_seconds":             float64(a.SimNs) / 1e9,
-		"runs_per_hour":                 float64(a.Runs) / runWall * 3600,
-		"seeds_per_hour":                float64(a.Runs) / runWall * 3600,
-		"distinct_schedules":            len(a.sched),
-		"distinct_plans":                len(a.plans),
-		"fault_fires":                   a.Faults,
-		"rare_condition_hits":           a.Rare,
-		"strategies":                    a.Strategies,
-		"foreign_events_truncated_runs": a.Foreign,
-		"inconclusive_step_cap":         a.StepCap,
-		"known_findings_observed":       a.Known,
-		"batches_skipped_by_wall_cap":   skipped,
+		"evaluations":                         a.Runs,
+		"distinct_nontrivial":                 distinct,
+		"rule":                                ruleText[prop],
+		"samples":                             samples,
+		"enumerated_runs":                     a.Enumerated,
+		"scheduler_steps":                     a.Steps,
+		"simulated_seconds":                   float64(a.SimNs) / 1e9,
+		"runs_per_hour":                       float64(a.Runs) / runWall * 3600,
+		"seeds_per_hour":                      float64(a.Runs) / runWall * 3600,
+		"distinct_schedules":                  len(a.sched),
+		"distinct_plans":                      len(a.plans),
+		"fault_fires":                         a.Faults,
+		"rare_condition_hits":                 a.Rare,
+		"strategies":                          a.Strategies,
+		"foreign_events_truncated_runs":       a.Foreign,
+		"inconclusive_step_cap":               a.StepCap,
+		"known_findings_observed":             a.Known,
+		"batches_skipped_by_wall_cap":         skipped,
 		"violations_not_reproduced_by_replay": a.Unconfirmed,
-		"worker_batches_re_executed":    a.Retries,
-		"worker_failures_before_retry":  a.RetryNotes,
-		"workers":                       workers,
-		"tree_hash":                     bi.Hash,
-		"block_coverage":                probeCoverage(bi, a.Probes),
+		"worker_batches_re_executed":          a.Retries,
+		"worker_failures_before_retry":        a.RetryNotes,
+		"workers":                             workers,
+		"tree_hash":                           bi.Hash,
+		"block_coverage":                      probeCoverage(bi, a.Probes),
 		"components": map[string]string{
 			"service":    "real code (rewritten copy of /repo/service: yields, select/go/map-range seams)",
 			"attachment": "real code (rewritten copy of /repo/attachment)",
